@@ -313,7 +313,7 @@ for VS in (BVShape, UShape, SShape):
 import operator as _op
 
 for nm, pyop in (("__and__", _op.and_), ("__or__", _op.or_), ("__xor__", _op.xor)):
-    con = contract(BVMOD + nm, PROPS, status="assumed")
+    con = contract(BVMOD + nm, PROPS + ("C06",), status="assumed")  # C06: the operands are emitted unconverted, `slv xor unsigned` has no operator
     for n1, V1 in (("bv", BVShape), ("u", UShape), ("s", SShape)):
         for n2, V2 in (("bv", BVShape), ("u", UShape), ("s", SShape)):
             c = Case(f"{n1}-{n2}", [V1("w1", "a"), V2("w2", "b")], _bitwise(pyop))
